@@ -137,20 +137,45 @@ def build_model():
                 raise BuildError("ocaml compile failed:\n" + o + e)
 
 
-def wrap_statements(ml_body):
+MODEL_SHARDS = min(16, os.cpu_count() or 4)
+
+
+def wrap_statements(ml_body, shards=1):
     """every `let () = <expr>` statement of a generated case file becomes a function of its own, called in order at the
     end: ocamlopt's compile time is super-linear in the size of one function, and without this the module initialiser is
     one function holding every query (the thorough tiers did not compile within half an hour).  The definitions of worlds
-    and tape references stay top-level values in their original order; the queries run after all of them, in order."""
+    and tape references stay top-level values in their original order; the queries run after all of them, in order.
+
+    With shards > 1 the executable takes a shard number and runs only its share of the statements, so that the model side
+    runs on all cores.  The only state a statement can change is the random-tape position t<slot> of a world, so all
+    statements that mention the same slot (t<slot> / w<slot>) go to the same shard, in their original order; every
+    statement numbers its answer lines from 1000 * its index, and the caller merges the shards' output by that number."""
     out, calls = [], []
     k = 0
+    load = [0] * shards
+    slot_shard = {}
     for line in ml_body.split("\n"):
         if line.startswith("let () = "):
-            out.append("let __q%d () = %s" % (k, line[len("let () = "):]))
-            calls.append("__q%d ()" % k)
+            body = line[len("let () = "):]
+            out.append("let __q%d () = %s" % (k, body))
+            if shards > 1:
+                slots = set(re.findall(r"\b[tw](\d+)\b", body))
+                known = sorted(set(slot_shard[x] for x in slots if x in slot_shard))
+                if len(known) > 1:
+                    # a statement tying two slot groups together: give up sharding (not generated today)
+                    return wrap_statements(ml_body, 1)
+                sh = known[0] if known else min(range(shards), key=lambda i: load[i])
+                for x in slots:
+                    slot_shard[x] = sh
+                load[sh] += 1
+                calls.append("(if __sh = %d then (Driver.counter := %d; __q%d ()))" % (sh, 1000 * k, k))
+            else:
+                calls.append("__q%d ()" % k)
             k += 1
         else:
             out.append(line)
+    if shards > 1:
+        out.insert(0, "let __sh = int_of_string Sys.argv.(1)")
     # chunks of calls keep the final initialiser small as well
     for c in range(0, len(calls), 500):
         out.append("let __run%d () = %s" % (c // 500, "; ".join(calls[c:c + 500])))
@@ -159,24 +184,52 @@ def wrap_statements(ml_body):
 
 
 def run_model(ml_body, tag="cases"):
-    """compile a generated case file against model+driver and run it; returns answer lines."""
+    """compile a generated case file against model+driver and run it (on all cores); returns answer lines."""
     build_model()
     d = os.path.join(OCAML, "run_%s_%d" % (tag, os.getpid()))
     os.makedirs(d, exist_ok=True)
+    t_start = time.time()
     try:
+        nstat = ml_body.count("\nlet () = ")
+        shards = MODEL_SHARDS if nstat > 400 else 1
         src = os.path.join(d, "cases.ml")
         with open(src, "w") as f:
             f.write("open Model\nopen Driver\nlet n = Driver.num\n")
-            f.write(wrap_statements(ml_body))
+            f.write(wrap_statements(ml_body, shards))
             f.write("\n")
         rc, o, e = sh("ulimit -s unlimited 2>/dev/null || ulimit -s 4000000; ocamlfind ocamlopt -w -a -I %s %s/model.cmx %s/driver.cmx cases.ml -o cases.exe" % (OCAML, OCAML, OCAML),
                       cwd=d, timeout=1800)
         if rc != 0:
             raise BuildError("case file does not compile:\n" + (o + e)[-4000:])
-        rc, o, e = sh("./cases.exe", cwd=d, timeout=3600)
-        if rc != 0:
-            raise BuildError("model run failed: rc=%d\n%s" % (rc, (o + e)[-2000:]))
-        return parse_answers(o)
+        if os.environ.get("VERIF_TIMING"):
+            sys.stderr.write("[timing] %s: %d statements compiled in %.1fs\n" % (tag, nstat, time.time() - t_start))
+        if shards == 1:
+            rc, o, e = sh("./cases.exe", cwd=d, timeout=3600)
+            if rc != 0:
+                raise BuildError("model run failed: rc=%d\n%s" % (rc, (o + e)[-2000:]))
+            return parse_answers(o)
+        procs = [subprocess.Popen("ulimit -s unlimited 2>/dev/null || ulimit -s 4000000; ./cases.exe %d" % i, shell=True, cwd=d,
+                                  stdout=subprocess.PIPE, stderr=subprocess.PIPE, text=True, errors="replace") for i in range(shards)]
+        numbered = []
+        for i, p in enumerate(procs):
+            try:
+                o, e = p.communicate(timeout=7200)
+            except subprocess.TimeoutExpired:
+                for q in procs:
+                    q.kill()
+                raise BuildError("model run timed out (shard %d)" % i)
+            if p.returncode != 0:
+                for q in procs:
+                    q.kill()
+                raise BuildError("model run failed: shard %d rc=%d\n%s" % (i, p.returncode, (o + e)[-2000:]))
+            for line in o.splitlines():
+                sp = line.split(" ", 1)
+                if len(sp) == 2 and sp[0].isdigit():
+                    numbered.append((int(sp[0]), sp[1].strip()))
+        numbered.sort(key=lambda t: t[0])
+        if os.environ.get("VERIF_TIMING"):
+            sys.stderr.write("[timing] %s: model run finished at %.1fs\n" % (tag, time.time() - t_start))
+        return [a for _, a in numbered]
     finally:
         if not os.environ.get("VERIF_KEEP"):
             shutil.rmtree(d, ignore_errors=True)
